@@ -4,11 +4,14 @@ Generators (specs/Algebra*.tla): the rotation group of the cube as a state machi
 (AlgebraGroup), the walk of elementary row operations (AlgebraMat), the box machine
 (AlgebraBox), plain enumerations (AlgebraCases: 256 basis-matrix pairs, 26x26 direction
 pairs, axis/angle rotations, TRS triples, mesh transforms) and seeded non-lattice cases
-(kind "real").  `vh alg-exec` runs every case on the real polyform types;
+(kind "real").  A second generator stage (specs/AlgebraScale.tla) re-emits a rotated subset of
+all these cases at other binary magnitudes (inputs * 2^e, e in -100..100, outputs in the units
+Algebra.tla assigns).  `vh alg-exec` runs every case on the real polyform types;
 specs/TraceAlgebra.tla judges the recorded lines.
 """
 import json
 import os
+from concurrent.futures import ThreadPoolExecutor
 
 from vlib import core
 
@@ -21,7 +24,9 @@ REQUIRED = ["C17.QuatRotate", "C17.QuatLength", "C17.QuatCompose", "C17.QuatAxis
             "C17.MatAdd", "C17.MatMul", "C17.MatDet", "C17.MatInverse", "C17.MatMulPosition",
             "C17.TRSTransform", "C17.TRSTransformArray", "C17.TRSTransformInPlace", "C17.MeshTransform",
             "C17.BoxNew", "C17.BoxEncapsulate", "C17.BoxTight", "C17.BoxContains", "C17.BoxClosest",
-            "C17.RotationToNear"] + REAL_LAWS
+            "C17.RotationToNear"] + REAL_LAWS + [
+            "Scaled.rot", "Scaled.rotax", "Scaled.rotq", "Scaled.mat1", "Scaled.mat1inv", "Scaled.mat2",
+            "Scaled.trs", "Scaled.mesh", "Scaled.box", "Scaled.real"]
 
 PARAMS = {
     "quick": dict(group_depth=4, mat_depth=2, mat_ks="{1}", mat_bound=4, mat_stride=3, mat_sim=8, mat_sim_depth=8,
@@ -29,6 +34,31 @@ PARAMS = {
     "thorough": dict(group_depth=6, mat_depth=3, mat_ks="{1}", mat_bound=6, mat_stride=2, mat_sim=400, mat_sim_depth=12,
                      wordlen=3, box_depth=5, real_n=20000),
 }
+
+
+# binary magnitude stage: of the cases of kind k, one in stride[k] (rotated by the seed) is re-emitted with
+# consecutive profiles of AlgebraScale.tla; cases are ranked within their sub-kind (kind + constructor /
+# operation / law) so that every operation walks through the profiles on its own; a sub-kind with few cases gets
+# several profiles per case (at most `maxn`) so that it sees at least `target` profiles
+SCALE = {
+    "quick": dict(chunk=4000, target=26, maxn=6,
+                  stride=dict(mat1=1, mat2=4, rot=1, rotax=1, rotq=1, trs=1, mesh=1, boxhist=1, real=1)),
+    "thorough": dict(chunk=12000, target=208, maxn=13,
+                     stride=dict(mat1=2, mat2=8, rot=1, rotax=1, rotq=1, trs=1, mesh=1, boxhist=1, real=4)),
+}
+
+
+def subkind(c):
+    k = c["k"]
+    if k == "trs":
+        return k + ":" + c["ctor"]
+    if k == "mesh":
+        return k + ":" + c["op"]
+    if k == "real":
+        return k + ":" + c["law"]
+    if k == "boxhist":
+        return k + ":" + c["steps"][0]["op"]
+    return k
 
 
 def write_cfg(path, consts, invariants, props=(), view=None):
@@ -131,7 +161,69 @@ def collect_cases(ctx):
         for i in range(P["real_n"]):
             cases.append({"k": "real", "law": law, "seed": ctx.seed, "i": i})
     notes["real_cases"] = len(REAL_LAWS) * P["real_n"]
+
+    # (6) the same cases at other binary magnitudes
+    cases += scale_cases(ctx, cases, notes)
     return cases, notes
+
+
+def scale_cases(ctx, cases, notes):
+    """Second generator stage: TLC (AlgebraScale) re-emits selected cases at other binary magnitudes."""
+    S = SCALE[ctx.tier]
+    rank, sel, nsel = {}, [], {}
+    for c in cases:
+        k = c["k"]
+        if k not in S["stride"] or (k == "real" and c["law"] == "C17.RotationToReal"):
+            continue
+        sk = subkind(c)
+        j = rank.get(sk, 0)
+        rank[sk] = j + 1
+        if (j + ctx.seed) % S["stride"][k] == 0:
+            sel.append({"j": j // S["stride"][k], "n": 1, "c": c})
+            nsel[sk] = nsel.get(sk, 0) + 1
+    for x in sel:
+        x["n"] = max(1, min(S["maxn"], -(-S["target"] // nsel[subkind(x["c"])])))
+    chunks = [sel[i:i + S["chunk"]] for i in range(0, len(sel), S["chunk"])]
+
+    def one(n):
+        name = "scale%d" % n
+        d = ctx.scratch(name)
+        bp = os.path.join(ctx.scratch(name + "-in"), "base.ndjson")
+        core.write_ndjson(bp, chunks[n])
+        cfg = os.path.join(ctx.scratch(name + "-in"), "scale.cfg")
+        write_cfg(cfg, {"Seed": ctx.seed, "MaxNProf": S["maxn"]}, ["Emit"])
+        r = core.run_tlc(d, "AlgebraScale", "scale.cfg", files=[(cfg, "scale.cfg"), (bp, "base.ndjson")],
+                         workers=1, timeout=1800, heap="4g")
+        if r.rc != 0:
+            raise core.Infra("AlgebraScale failed (%s)" % r.violated)
+        return r
+
+    with ThreadPoolExecutor(max_workers=max(1, min(core.NCPU, 6))) as ex:
+        results = list(ex.map(one, range(len(chunks))))
+    out = []
+    for n, r in enumerate(results):
+        ctx.add_tlc(r)
+        got = [v for v in r.values if isinstance(v, dict) and "sc" in v]
+        if len(got) != sum(x["n"] for x in chunks[n]):
+            raise core.Infra("AlgebraScale emitted %d cases for %d selected" % (len(got), len(chunks[n])))
+        out += got
+    out.sort(key=lambda c: json.dumps(c, sort_keys=True))
+    cover, count, np, kcover, kcount = {}, {}, {}, {}, {}
+    for c in out:
+        sk = subkind(c)
+        cover.setdefault(sk, set()).add(c["sc"])
+        count[sk] = count.get(sk, 0) + 1
+        np[sk] = np[c["k"]] = c["np"]
+        kcover.setdefault(c["k"], set()).add(c["sc"])
+        kcount[c["k"]] = kcount.get(c["k"], 0) + 1
+    notes["scaled_cases"] = kcount
+    notes["scaled_profiles_covered"] = {k: "%d/%d" % (len(kcover[k]), np[k]) for k in sorted(kcover)}
+    # by construction every sub-kind walks through its profiles without repetition until all are used
+    short = [sk for sk in cover if len(cover[sk]) < min(np[sk], count[sk])]
+    if short or set(S["stride"]) - set(kcover):
+        raise core.Infra("vacuous: magnitude profiles: sub-kinds %s, kinds never scaled %s" %
+                         (short, sorted(set(S["stride"]) - set(kcover))))
+    return out
 
 
 def is_boundary(ln):
@@ -170,6 +262,11 @@ def execute_and_judge(ctx, vh, cases, name="main", nshards=None):
 
 
 def discriminator(case):
+    d = discriminator0(case)
+    return d + "/scaled" if case.get("sc") else d
+
+
+def discriminator0(case):
     k = case["k"]
     if k == "rotto":
         a, b = case["a"], case["b"]
@@ -226,6 +323,24 @@ def self_test(ctx, raw):
         elif k == "boxreal":
             o["pts"][0][0] = o["hi"][0] + 5
         bad.append(o)
+    # binary magnitude: a scaled mat1 line whose inverse was judged; one mantissa changed, and (separately) one
+    # declared unit changed (the judge must refuse the line: units are Algebra.tla's, not the harness's)
+    sm = None
+    for ln in raw:
+        if ln.startswith('{"k":"mat1"'):
+            o = json.loads(ln)
+            if any(o["ae"]) and o["det"] in (1, -1, 2, -2, 4, -4) and o["invex"]:
+                sm = o
+                break
+    if sm is None:
+        raise core.Infra("self-test: no scaled mat1 line with a judged inverse in the trace")
+    good.append(json.loads(json.dumps(sm)))
+    o = json.loads(json.dumps(sm))
+    o["inv"][0] += 1
+    bad.append(o)
+    o = json.loads(json.dumps(sm))
+    o["du"] += 1
+    bad.append(o)
     # a box history with a corrupted observation in its second line
     box, cur = [], []
     for ln in raw:
